@@ -4,6 +4,9 @@
    downloader step function of C05 (Model/Downloader.v, sync/evmdownloader.go) and an abstract store.
    Definitions only.
 
+   The downloader's numbered RPC calls (eth_getLogs, eth_getBlockByNumber(n)) always succeed here: C05's call-outcome list
+   is [] in every (re)started download (transient failures and the hash-mismatch retry of the downloader are C05's).
+
    What is modelled as data (environment, not aggkit code):
    * chain versions: a version gives every block number a hash and its logs; the node serves ONE version at a time, up to
      its current head; the world also fixes the number the node answers to the finalized block tag;
@@ -177,7 +180,7 @@ Definition do_handle_all (s : sys) : sys := do_handle_n (length (y_chan s)) s.
 Definition handle_reorg (b : N) (s : sys) : sys :=
   let st := store_reorg b (y_store s) in
   {| y_world := y_world s; y_final := y_final s; y_store := st; y_det := y_det s;
-     y_dl := dl_init (sync_from (lp st)); y_chan := []; y_rewinds := y_rewinds s ++ [b] |}.
+     y_dl := dl_init (sync_from (lp st)) []; y_chan := []; y_rewinds := y_rewinds s ++ [b] |}.
 
 Definition env_of (w : world) (ferr : bool) (errat : option nat) : tick_env :=
   {| e_fin := if ferr then None else Some (w_fin w, v_hash (w_ver w) (w_fin w));
@@ -199,7 +202,7 @@ Definition do_tick (s : sys) (ferr : bool) (errat : option nat) : sys :=
    creates an empty list), Sync starts a Download at GetLastProcessedBlock()+1; the store persists *)
 Definition do_restart (s : sys) : sys :=
   {| y_world := y_world s; y_final := y_final s; y_store := y_store s; y_det := reload (y_det s);
-     y_dl := dl_init (sync_from (lp (y_store s))); y_chan := []; y_rewinds := y_rewinds s |}.
+     y_dl := dl_init (sync_from (lp (y_store s))) []; y_chan := []; y_rewinds := y_rewinds s |}.
 Definition do_crash_mid (s : sys) : sys :=
   match y_chan s with
   | [] => do_restart s
@@ -220,7 +223,7 @@ Definition run (cfg : config) (s : sys) (es : list event) : sys := fold_left (st
 
 (* a fresh node on an empty store: Start, Subscribe, Sync *)
 Definition sys_init (w : world) : sys :=
-  {| y_world := w; y_final := w_fin w; y_store := []; y_det := det_empty; y_dl := dl_init (sync_from 0); y_chan := [];
+  {| y_world := w; y_final := w_fin w; y_store := []; y_det := det_empty; y_dl := dl_init (sync_from 0) []; y_chan := [];
      y_rewinds := [] |}.
 
 (* ---- reference notions used by the statements (not by the step function) ---- *)
